@@ -100,9 +100,10 @@ CHECKS.update({
                 text="Theorems (finite endpoints of any length, every precision): x in s, y in t => x+y, x-y, -x, x, x*y lie in the result interval, which is again well-formed; multiplication covers the degenerate, the six sign cases and the four-product general case. "
                      "mpi_div/sqrt/pow_int/abs/square/conversions and infinite endpoints are modelled bit-exactly and containment is decided on sample points per case.",
                 note=TB + "Partial: infinite endpoints, division, powers, sqrt, string conversion are decided per case, not proved; transcendental interval functions are not covered."),
-    "C15": dict(category="translation_validation", technique="bit-exact Lean model of mpci_* on top of the real interval operations proved in Props/C14 + exact sample-point decisions of containment",
-                text="mpci_add/sub/mul/div/neg/pos/abs/square/pow_int are modelled following the code and compared bit for bit; for points of the input rectangles the exact complex result is checked to lie in the output rectangle in exact rational arithmetic.",
-                note=TB + "No separate theorem for the complex operations yet (they are compositions of the proved real interval operations); mpci_exp/log/cos/sin/pow/gamma are not covered."),
+    "C15": dict(category="proof", technique="Lean 4 containment theorems for complex rectangle add/sub/neg/pos/mul (from the proved real interval operations) + bit-exact model of the other mpci_* + exact and verified-enclosure decisions on sample points",
+                text="Theorems (Props/C15.lean): for rectangles with finite canonical endpoints of any bit length and every precision, mpci_add/sub/neg/pos/mul return well-formed rectangles containing z op w for every z, w in the operands. "
+                     "mpci_div/abs/square/pow_int are modelled following the code and compared bit for bit, with exact sample-point containment decisions; mpc exp/log/cos/sin/abs/arg are decided on sample points from verified real enclosures combined in exact rational arithmetic.",
+                note=TB + "Division, powers, abs and the transcendental functions are sampled (no theorem); mpci_pow with non-integer exponents is not covered; complex gamma only at closed-form points."),
     "C16": dict(category="proof", technique="Lean 4 theorems: interval comparisons are sound and complete three-valued predicates (on the proved mpf_cmp) + bit-exact correspondence incl. ctx_iv operators",
                 text="Theorems (finite endpoints): mpi_lt/le answer True iff the relation holds for every pair of members, False iff it fails for every pair (hence None exactly otherwise); gt/ge are the mirrored predicates; == compares endpoint values exactly; interval-in-interval containment. "
                      "Operators of ivmpf/ivmpc incl. number operands and infinite endpoints are modelled and compared bit for bit and decided on sample points.",
